@@ -64,7 +64,7 @@ impl<A: MaybeNan, D: Dimension> ArrayN<A, D> {
                 accs.len() == it.index@ + 1, accs[0] == init, accs[it.index@ as int] == __acc,
                 forall|k: int| 0 <= k < it.index@ ==> skip_step_idx::<A, D::Pattern, B, F>(f0, #[trigger] accs[k], self.idx(k), self@[k], accs[k + 1]), // [C14]
 //@at loop_start 0
-            proof { assert(__fos[it.index@] == (idx, elem)); }
+            proof { assert(__fos[it.index@] == (self.idx(it.index@ as int), &self@[it.index@ as int])); }
 //@at loop_end 0
             proof { accs = accs.push(__acc); }
 //@at after_loop 0
@@ -201,6 +201,116 @@ impl<A: MaybeNan, D: Dimension> ArrayN<A, D> {
         proof { assert(first matches Some(x) ==> !self@[0].is_nan_spec() && self@[0].not_nan_spec() == *x); }
 //@name_call fold_skipnan 0
             proof { lemma_ext_from_trace::<A, D, _>(true, self, __clg, first, __t); }
+//@end
+
+//@extract file=src/quantile/mod.rs impl=QuantileExt:ArrayBase fn=argmin_skipnan id=argmin_skipnan tags=C14 body_tags=C14 lower=fold inline=indexed_fold_skipnan@src/maybe_nan/mod.rs@MaybeNanExt:ArrayBase inline_ty=init:Option<&A::NotNan>
+//@sig
+    fn argmin_skipnan(&self) -> (r: Result<D::Pattern, MinMaxError>)
+    where
+        A: MaybeNan,
+        A::NotNan: Ord,
+//@spec
+        requires lawful_ord::<A::NotNan>(),
+        ensures
+            // nothing left (empty or every element missing): EmptyInput
+            (forall|k: int| 0 <= k < self@.len() ==> (#[trigger] self@[k]).is_nan_spec()) ==> r is Err, // [C14]
+            // otherwise: the index of a not-missing element of the array that bounds every not-missing element
+            (exists|k: int| 0 <= k < self@.len() && !(#[trigger] self@[k]).is_nan_spec()) ==> (r matches Ok(p)
+                && exists|k: int| 0 <= k < self@.len() && !(#[trigger] self@[k]).is_nan_spec() && p == self.idx(k)
+                    && forall|j: int| 0 <= j < self@.len() && !(#[trigger] self@[j]).is_nan_spec() ==> dle(false, self@[k].not_nan_spec(), self@[j].not_nan_spec())), // [C14]
+//@binop cmp 0 verif_ref
+//@at entry
+        proof { reveal(lawful_ord); }
+//@at before_loop 0
+        let ghost mut i0: int = 0; let ghost mut acc0: Option<&A::NotNan> = None; let ghost mut pat0 = pattern_min;
+//@loop 0
+            invariant
+                ord_laws::<A::NotNan>(),
+                it.seq() == __fos, __fos.len() == self@.len(), forall|k: int| 0 <= k < self@.len() ==> #[trigger] __fos[k] == (self.idx(k), &self@[k]),
+                __acc is None <==> (forall|k: int| 0 <= k < it.index@ ==> (#[trigger] self@[k]).is_nan_spec()), // [C14]
+                __acc matches Some(m) ==> exists|k: int| 0 <= k < it.index@ && !(#[trigger] self@[k]).is_nan_spec() && *m == self@[k].not_nan_spec() && pattern_min == self.idx(k)
+                    && forall|j: int| 0 <= j < it.index@ && !(#[trigger] self@[j]).is_nan_spec() ==> dle(false, self@[k].not_nan_spec(), self@[j].not_nan_spec()), // [C14]
+//@at loop_start 0
+            proof { assert(__fos[it.index@] == (self.idx(it.index@ as int), &self@[it.index@ as int])); }
+            proof { i0 = it.index@ as int; acc0 = __acc; pat0 = pattern_min; }
+//@at loop_end 0
+            proof {
+                if !self@[i0].is_nan_spec() {
+                    let e = self@[i0].not_nan_spec();
+                    if acc0 is Some {
+                        let m0 = acc0->Some_0;
+                        let k0 = choose|k: int| 0 <= k < i0 && !(#[trigger] self@[k]).is_nan_spec() && *m0 == self@[k].not_nan_spec() && pat0 == self.idx(k)
+                            && forall|j: int| 0 <= j < i0 && !(#[trigger] self@[j]).is_nan_spec() ==> dle(false, self@[k].not_nan_spec(), self@[j].not_nan_spec());
+                        if dle(false, *m0, e) && __acc == acc0 {
+                            assert(forall|j: int| 0 <= j < i0 + 1 && !(#[trigger] self@[j]).is_nan_spec() ==> dle(false, self@[k0].not_nan_spec(), self@[j].not_nan_spec()));
+                        } else {
+                            assert(dle(false, e, *m0));
+                            assert forall|j: int| 0 <= j < i0 + 1 && !(#[trigger] self@[j]).is_nan_spec() implies dle(false, e, self@[j].not_nan_spec()) by {
+                                if j < i0 { assert(dle(false, *m0, self@[j].not_nan_spec())); }
+                            }
+                            assert(!self@[i0].is_nan_spec() && pattern_min == self.idx(i0));
+                        }
+                    } else {
+                        assert forall|j: int| 0 <= j < i0 + 1 && !(#[trigger] self@[j]).is_nan_spec() implies dle(false, e, self@[j].not_nan_spec()) by { assert(j == i0); }
+                        assert(!self@[i0].is_nan_spec() && pattern_min == self.idx(i0));
+                    }
+                }
+            }
+//@end
+
+//@extract file=src/quantile/mod.rs impl=QuantileExt:ArrayBase fn=argmax_skipnan id=argmax_skipnan tags=C14 body_tags=C14 lower=fold inline=indexed_fold_skipnan@src/maybe_nan/mod.rs@MaybeNanExt:ArrayBase inline_ty=init:Option<&A::NotNan>
+//@sig
+    fn argmax_skipnan(&self) -> (r: Result<D::Pattern, MinMaxError>)
+    where
+        A: MaybeNan,
+        A::NotNan: Ord,
+//@spec
+        requires lawful_ord::<A::NotNan>(),
+        ensures
+            // nothing left (empty or every element missing): EmptyInput
+            (forall|k: int| 0 <= k < self@.len() ==> (#[trigger] self@[k]).is_nan_spec()) ==> r is Err, // [C14]
+            // otherwise: the index of a not-missing element of the array that bounds every not-missing element
+            (exists|k: int| 0 <= k < self@.len() && !(#[trigger] self@[k]).is_nan_spec()) ==> (r matches Ok(p)
+                && exists|k: int| 0 <= k < self@.len() && !(#[trigger] self@[k]).is_nan_spec() && p == self.idx(k)
+                    && forall|j: int| 0 <= j < self@.len() && !(#[trigger] self@[j]).is_nan_spec() ==> dle(true, self@[k].not_nan_spec(), self@[j].not_nan_spec())), // [C14]
+//@binop cmp 0 verif_ref
+//@at entry
+        proof { reveal(lawful_ord); }
+//@at before_loop 0
+        let ghost mut i0: int = 0; let ghost mut acc0: Option<&A::NotNan> = None; let ghost mut pat0 = pattern_max;
+//@loop 0
+            invariant
+                ord_laws::<A::NotNan>(),
+                it.seq() == __fos, __fos.len() == self@.len(), forall|k: int| 0 <= k < self@.len() ==> #[trigger] __fos[k] == (self.idx(k), &self@[k]),
+                __acc is None <==> (forall|k: int| 0 <= k < it.index@ ==> (#[trigger] self@[k]).is_nan_spec()), // [C14]
+                __acc matches Some(m) ==> exists|k: int| 0 <= k < it.index@ && !(#[trigger] self@[k]).is_nan_spec() && *m == self@[k].not_nan_spec() && pattern_max == self.idx(k)
+                    && forall|j: int| 0 <= j < it.index@ && !(#[trigger] self@[j]).is_nan_spec() ==> dle(true, self@[k].not_nan_spec(), self@[j].not_nan_spec()), // [C14]
+//@at loop_start 0
+            proof { assert(__fos[it.index@] == (self.idx(it.index@ as int), &self@[it.index@ as int])); }
+            proof { i0 = it.index@ as int; acc0 = __acc; pat0 = pattern_max; }
+//@at loop_end 0
+            proof {
+                if !self@[i0].is_nan_spec() {
+                    let e = self@[i0].not_nan_spec();
+                    if acc0 is Some {
+                        let m0 = acc0->Some_0;
+                        let k0 = choose|k: int| 0 <= k < i0 && !(#[trigger] self@[k]).is_nan_spec() && *m0 == self@[k].not_nan_spec() && pat0 == self.idx(k)
+                            && forall|j: int| 0 <= j < i0 && !(#[trigger] self@[j]).is_nan_spec() ==> dle(true, self@[k].not_nan_spec(), self@[j].not_nan_spec());
+                        if dle(true, *m0, e) && __acc == acc0 {
+                            assert(forall|j: int| 0 <= j < i0 + 1 && !(#[trigger] self@[j]).is_nan_spec() ==> dle(true, self@[k0].not_nan_spec(), self@[j].not_nan_spec()));
+                        } else {
+                            assert(dle(true, e, *m0));
+                            assert forall|j: int| 0 <= j < i0 + 1 && !(#[trigger] self@[j]).is_nan_spec() implies dle(true, e, self@[j].not_nan_spec()) by {
+                                if j < i0 { assert(dle(true, *m0, self@[j].not_nan_spec())); }
+                            }
+                            assert(!self@[i0].is_nan_spec() && pattern_max == self.idx(i0));
+                        }
+                    } else {
+                        assert forall|j: int| 0 <= j < i0 + 1 && !(#[trigger] self@[j]).is_nan_spec() implies dle(true, e, self@[j].not_nan_spec()) by { assert(j == i0); }
+                        assert(!self@[i0].is_nan_spec() && pattern_max == self.idx(i0));
+                    }
+                }
+            }
 //@end
 
 }
